@@ -172,6 +172,9 @@ def main(argv=None):
                     merge(agg, r)
     wall = time.time() - t0
 
+    if os.environ.get("BSV_DUMP"):
+        with open(os.environ["BSV_DUMP"], "w") as f:
+            json.dump(agg["violations"], f, default=repr)
     known = load_known(prop)
     new, knowns = [], {}
     for v in agg["violations"]:
